@@ -270,7 +270,7 @@ func runC10(r *Run) {
 	last := w2.LastOffset()
 	gotFirst := w2.FirstOffset()
 	if last >= first+int64(len(entries)) {
-		r.Fail("fabricated-entry", "recovered last offset %d beyond anything appended (%d)", last, first+int64(len(entries))-1)
+		r.Fail("fabricated-entry", "format=%s recovered last offset %d beyond anything appended (%d) (%s, %s)", cs.Format, last, first+int64(len(entries))-1, cs.Mode, cs.Mutation)
 		return
 	}
 	if last >= 0 && gotFirst != first {
